@@ -255,6 +255,35 @@ def gen_long_history(rng):
     return {"cfg": cfg, "ops": ops, "snap_every": 500}
 
 
+def gen_bulk_expiry(rng):
+    """many leases (more than any plausible per-sweep chunk) run out at the same instant: the very next dequeues, a millisecond apart
+    (inside SQLite's sweep throttle), must hand out min(batch, ready) messages each until all are leased again"""
+    cfg = _cfg0()
+    n = rng.choice([510, 520, 540])
+    now = BASE + rng.randrange(1000) * SEC
+    ops = []
+    i = 0
+    while i < n:
+        k = min(100, n - i)
+        now += MS
+        ops.append({"op": "enqueue_batch", "now": now, "enq": [{"id": "B%05d" % (i + j), "route": "r0", "target": "t0", "recv": None, "next": None,
+                                                                  "body": 7, "hdr": 0, "trace": 0} for j in range(k)]})
+        i += k
+    T = rng.choice([SEC, 5 * SEC])
+    rounds = (n + 99) // 100
+    for _ in range(rounds):
+        now += 1
+        ops.append({"op": "dequeue", "now": now, "route": "", "target": "", "batch": 100, "ttl": T})
+    now += T + rng.choice([SEC, 20 * MS])
+    for _ in range(rounds + 1):
+        now += MS
+        ops.append({"op": "dequeue", "now": now, "route": "", "target": "", "batch": 100, "ttl": 30 * SEC})
+    ops.append({"op": "stats", "now": now})
+    for o in ops[-4:]:
+        o["snap"] = True
+    return {"cfg": cfg, "ops": ops, "snap_every": 500}
+
+
 # ---------------------------------------------------------------------------
 # scenario fragments: multi-step situations a uniform random walk meets too rarely.  Each is a short
 # history with randomly chosen parameters; every queue-family check runs them before its random histories.
